@@ -95,8 +95,11 @@ func (s *Shared) Share() error {
 		hook.OnGRPCLaunchBefore(s.grpc)
 	}
 
+	server := s.grpc
 	go func() {
-		s.runtimeError(s.grpc.Serve(listener))
+		if err := server.Serve(listener); !errors.Is(err, grpc.ErrServerStopped) {
+			s.runtimeError(err)
+		}
 	}()
 
 	s.rc.RegisterResolver(FunctionalPhysicalAddressResolver(func(id *ProcessId) Process {
